@@ -62,6 +62,18 @@ impl<'a, 'tcx> X<'a, 'tcx> {
             }
             return obj! {"k": J::s("const"), "ty": J::s(ty_s(ty)), "bits": J::s(bits.to_string())};
         }
+        if matches!(ty.kind(), ty::Str) {
+            let bytes: Option<Vec<u8>> = v
+                .to_branch()
+                .into_iter()
+                .map(|ct| (*ct).try_to_value().and_then(|x| x.try_to_leaf()).map(|l| l.to_u8()))
+                .collect();
+            if let Some(b) = bytes {
+                if let Ok(s) = String::from_utf8(b) {
+                    return obj! {"k": J::s("const"), "ty": J::s(ty_s(ty)), "str": J::s(s)};
+                }
+            }
+        }
         if let Some(bytes) = v.try_to_raw_bytes(self.tcx) {
             if let Ok(s) = std::str::from_utf8(bytes) {
                 return obj! {"k": J::s("const"), "ty": J::s(ty_s(ty)), "str": J::s(s.to_string())};
